@@ -79,6 +79,10 @@ CHECKS["C14"] = dict(engine="lzsim-xcfg", category="exploration", design_ref="DE
    text="Default, std-without-optimization, no_std+optimization and no_std builds of the current tree execute the same case: compressed bytes (also across a 31-bit position wrap) and decode outcomes (bytes delivered, Ok/Err, error class) for valid, truncated, damaged and garbage streams must be identical; scalar vs SIMD renormalisation and assembly vs portable decode_direct_bits are compared directly on generated state.",
    note="x86_64 little-endian host only (AVX2/SSE4.1 as detected); aarch64 assembly, NEON and big-endian branches are not executed.")
 
+st("C15", "exploration", "deterministic simulation workloads under memory monitors: hook H5 shadow assertions in every run (the only monitor that sees the assembly's loads); thorough tier adds the same workload in an AddressSanitizer build and tiny encoder cases under Miri",
+   "Workloads that reach every unsafe block of the optimization feature (match extension at both window ends, window moves, finishing with < 8 bytes, SIMD renormalisation after the 31-bit position wrap, the assembly direct-bit reader running off the end of a damaged chunk) execute with shadow assertions that restate each block's precondition immediately before it; a violated precondition is reported as class oob. thorough: the scaled-down plan again under ASan (worker death = finding) and 64 tiny encode/decode cases under Miri.",
+   "Shadow assertions are hand-written restatements of the SAFETY comments; ASan cannot see asm! loads, Miri cannot execute asm!; x86_64 only.")
+
 NOT_YET = {}
 for i in range(1, 20):
     pid = f"C{i:02d}"
